@@ -388,11 +388,11 @@ static res_t do_op(rset_t *s, const op_t *op)
 				if (sqfs_xattr_reader_get_desc(s->xr, idx, &d2) || sqfs_xattr_reader_seek_kv(s->xr, &d2)) { st[pass] = -1; break; }
 				for (uint32_t k = 0; k < d2.count && k < 6; k++) {
 					key = NULL; val = NULL;
-					if (pass) (void)sqfs_xattr_reader_get_desc(s->xr, (idx + 1 + k) % (super.inode_count + 2), &other);
+					if (pass) (void)sqfs_xattr_reader_get_desc(s->xr, (uint32_t)(((uint64_t)idx + 1 + k) % ((uint64_t)super.inode_count + 2)), &other);
 					st[pass] = sqfs_xattr_reader_read_key(s->xr, &key);
 					if (st[pass]) break;
 					h[pass] = H(h[pass], key, sizeof(*key) + key->size);
-					if (pass) (void)sqfs_xattr_reader_get_desc(s->xr, (idx + 2 + k) % (super.inode_count + 2), &other);
+					if (pass) (void)sqfs_xattr_reader_get_desc(s->xr, (uint32_t)(((uint64_t)idx + 2 + k) % ((uint64_t)super.inode_count + 2)), &other);
 					st[pass] = sqfs_xattr_reader_read_value(s->xr, key, &val);
 					if (st[pass] == 0) h[pass] = H(h[pass], val, sizeof(*val) + val->size);
 					sqfs_free(key); sqfs_free(val);
